@@ -1,13 +1,7 @@
 (** C02 view of the same cases: the observable that matters is the effect trace. *)
 From Coq Require Import List ZArith NArith Bool.
 Import ListNotations.
-From Verif Require Export C01.Corr.
-From Verif Require Import Common.ListX.
+From Verif Require Export C01.AllCorr.
 
-Definition out_eqb (a b : out) : bool :=
-  match a, b with
-  | OVal _ t1, OVal _ t2 => list_eqb value_eqb t1 t2
-  | OErr x, OErr y => N.eqb x y
-  | _, _ => false
-  end.
+Definition out_eqb (a b : out) : bool := trace_eqb a b.
 Definition spec_ok (c : case) (o : out) : bool := out_eqb (spec c) o.
